@@ -368,11 +368,23 @@ class Session:
         by_id = {m._id: i for i, m in enumerate(self.meas)}
         self.order = [by_id[i] for i in ids]            # source order -> creation index
         self.pos = {c: p for p, c in enumerate(self.order)}
+        # correlations given by POSITION in the source order (so that the matrix the Cholesky routine sees
+        # does not depend on the random ids of this run), as exact rationals [pa, pb, num, den]
+        for pa, pb, num, den in case.get("corr_pos", []):
+            if pa < len(self.order) and pb < len(self.order):
+                q.set_correlation(self.meas[self.order[pa]], self.meas[self.order[pb]], num / den)
         self.ev = self.res._DerivedValue__evaluators[lit.MONTE_CARLO]
         self.handed = []
         self.src_snapshot = [(fx(self.meas[c].value), fx(self.meas[c].error), fx(self.meas[c].std)) for c in self.order]
         self.corr_matrix = [[fx(q.get_correlation(self.meas[a], self.meas[b])) if a != b else fx(1.0)
                              for b in self.order] for a in self.order]
+        if case.get("corr_pos"):
+            k = len(self.order)
+            m = [[[1, 1] if a == b else [0, 1] for b in range(k)] for a in range(k)]
+            for pa, pb, num, den in case["corr_pos"]:
+                if pa < k and pb < k:
+                    m[pa][pb] = m[pb][pa] = [num, den]
+            self.corr_matrix = m
 
     def enums(self):
         return {}
@@ -532,7 +544,8 @@ def coq_obs(ob):
 def coq_history_case(case, run, intern):
     pos, k = run["pos"], len(run["order"])
     e = coq_expr(case["defs"][-1], case["defs"], pos)
-    C = coq_list([coq_list([cq(x) for x in row]) for row in run["corr"]])
+    C = coq_list([coq_list([cq(x) if isinstance(x, str) else "({} # {})".format(x[0], x[1]) for x in row])
+                  for row in run["corr"]])
     srcs = coq_list(["(mksrc {} {} {})".format(cq(v), cq(er), cq(sd)) for v, er, sd in run["srcs"]])
     calls = coq_list([intern(coq_list([qlit(x) for x in c])) for c in run["calls"]])
     steps = coq_list(["({}, {}, ({}, {}))".format(coq_op(o, pos, k), coq_obs(ob), coq_bool(w1), coq_bool(w2))
